@@ -488,6 +488,10 @@ func main() {
 		{"Authorization: Bearer t", "Cookie: a=b"},
 		{"Connection: keep-alive, X-Hop", "X-Hop: v", "X-A: 1"},
 		{"Accept-Encoding: gzip", "User-Agent: ua"},
+		// hop-by-hop fields whose first value is empty
+		{"Keep-Alive:", "Keep-Alive: timeout=5"},
+		{"Proxy-Authorization:", "Proxy-Authorization: Basic x", "X-A: 1"},
+		{"Upgrade:", "Te:"},
 	}
 	bodyLens := []int{0, 1, 32767, 32768, 32769, 98311}
 	framings := []bool{false, true}
